@@ -137,13 +137,80 @@ func init() {
 		ID: "C12",
 		Decides: []string{
 			"(A-order on Normalize) the price of a commodity is a function of the declarations: the traversal of the price graph does not depend on map iteration order (no first-wins over a map range);",
+			"(K-bfs) the traversal is iterative with a FIFO frontier (breadth-first), so a directly declared price wins over a derived one;",
 			"(K-both-directions) every insertion stores the price and its reciprocal under permuted commodities on every success path, and a later declaration overwrites unconditionally;",
+			"(D-state-all-paths) the table is re-normalized exactly on days with price directives and carried forward otherwise;",
 			"(D-div) a zero price is rejected before the division;",
 			"(K-price-miss) an unconnected commodity has no price and valuing it is an error.",
 		},
 		NotDecided: []string{
 			"which path's product is used among several chains (breadth-first from V, neighbours in name order, by reading), the 8-digit truncation values, and that the most recent declaration per pair is the one in the table on a given day (that is the price stage's carry-forward, C03).",
 		},
-		Rules: []Rule{RuleAOrder, RuleKBothDirections, RuleDDiv, RuleKPriceMiss},
+		Rules: []Rule{RuleAOrder, RuleKBfs, RuleKBothDirections, RuleDDiv, RuleKPriceMiss, RuleDStateAllPaths},
+	})
+}
+
+func init() {
+	claim(&Property{
+		ID: "C07",
+		Decides: []string{
+			"(E-loops, E-nonempty) termination: each of the 20 loops in scanner, parser and directives is bounded (range / counted) or consumes at least one rune on every cyclic path and is left at end of input; decided by a path-sensitive progress analysis with function summaries (Adv / AdvOrEOF / None) computed as a least fixed point; the parser and scanner are not recursive; the literals handed to ReadString/ReadAlternative are non-empty;",
+		},
+		NotDecided: []string{
+			"that the tree is the right tree for the text;",
+			"slice-bounds safety of Go code in general (only the scanner/directives sites named in DESIGN.md are examined).",
+		},
+		Rules: []Rule{RuleELoops},
+	})
+}
+
+func init() {
+	claim(&Property{
+		ID: "C10",
+		Decides: []string{
+			"(C-posting, C-postings, J-pair) every generated transaction balances: its postings come from the pair builder;",
+			"(F-acct-types) every leg of the original is re-booked: for each of the five account types the re-booking loop reaches a builder call;",
+			"(D-div) the amount is divided by a size that a dominating test shows to be non-zero;",
+			"(K-remainder) divisor and parts come from the same partition value (Size() / EndDates()), and the remainder is added in exactly the iteration with index 0;",
+			"(K-accrual-dates) kept legs carry the transaction's date, split legs the partition's end dates.",
+		},
+		NotDecided: []string{
+			"QuoRem's arithmetic (trusted library contract q*n + r = x);",
+			"the calendar partition itself (C11);",
+			"that the accrual account nets to zero numerically (follows from the above by arithmetic, not checked).",
+		},
+		Rules: []Rule{RuleCPosting, RuleCPostings, RuleJPair, RuleFAcctTypes, RuleDDiv, RuleKRemainder, RuleKAccrualDates},
+	})
+}
+
+func init() {
+	claim(&Property{
+		ID: "C15",
+		Decides: []string{
+			"(C-infer) write set: the only stores into the parsed tree reachable from the infer command are Booking.Credit / Booking.Debit, each taken only on the true edge of `<text of that same field> == placeholder`;",
+			"(C-infer-fresh) the other account handed to the candidate search is the booking's current other side: no value read from Credit/Debit before its replacement is used after it;",
+			"(K-zero-flow) no account built from the empty default is stored unless the search reported success;",
+			"(A-order, A-sort) the choice is deterministic: candidates and tokens are visited in sorted order, and training over concurrently parsed files is order-free;",
+			"(D-atomic, C-filewrite) --inplace writes through the atomic writer only after a successful parse and render.",
+		},
+		NotDecided: []string{
+			"that the chosen account maximises the Bayes score; that the formatter preserves everything else (C08);",
+			"that the stored account occurs in the training journal (it is a key of the training counts by construction of the candidate loop; not machine-checked).",
+		},
+		Rules: []Rule{RuleCInfer, RuleCInferFresh, RuleKZeroFlow, RuleAOrder},
+	})
+	claim(&Property{
+		ID: "C20",
+		Decides: []string{
+			"(D-days-before-build) period-end days are registered with the builder before Build() snapshots the days, for both portfolio commands;",
+			"(G1) values are computed before flows, returns and weights; prices before valuation;",
+			"(B1) the universe's classification slices are never written through a reslice;",
+			"(K-partition-whole) the partition's end dates are consumed whole;",
+			"(A-order, A-stage) float sums and row order do not depend on map iteration or arrival order.",
+		},
+		NotDecided: []string{
+			"agreement of the weights with `balance -v` (arithmetic), the return formula, that the top level sums to 100%.",
+		},
+		Rules: []Rule{RuleDDaysBeforeBuild, RuleG1, RuleB1, RuleKPartitionWhole, RuleAOrder},
 	})
 }
